@@ -732,12 +732,26 @@ func (e *e2) call(f *ssa.Function, in ssa.CallInstruction, val ssa.Value) {
 		}
 		if val != nil {
 			rs := e.ret[cal]
+			// a result that is, on every return path, one and the same parameter handed back as it is (or nil) has
+			// the origins of this call's argument, not of every caller's (UnidirectionalBroadcast returns A itself)
+			pass := map[int]int{}
+			if len(callees) == 1 && !cc.IsInvoke() {
+				pass = passThroughResults(cal)
+			}
 			if len(rs) == 1 {
-				e.set(val, rs[0])
+				if pi, ok := pass[0]; ok && pi < len(args) {
+					e.set(val, e.get(args[pi]))
+				} else {
+					e.set(val, rs[0])
+				}
 			} else if len(rs) > 1 {
 				ts := e.tupleOf(val, len(rs))
 				for i := range rs {
-					if ts[i].addAll(rs[i]) {
+					src := rs[i]
+					if pi, ok := pass[i]; ok && pi < len(args) {
+						src = e.get(args[pi])
+					}
+					if ts[i].addAll(src) {
 						e.changed = true
 					}
 				}
@@ -905,4 +919,53 @@ func reachingStores(ld *ssa.UnOp, a *ssa.Alloc) ([]*ssa.Store, bool) {
 	}
 	scan(blk, at-1)
 	return out, true
+}
+
+var passThroughMemo = map[*ssa.Function]map[int]int{}
+
+// passThroughResults: result index -> parameter index, for the results of fn that every return statement fills with
+// that very parameter (the SSA parameter itself, not a value derived from it) or with nil.
+func passThroughResults(fn *ssa.Function) map[int]int {
+	if m, ok := passThroughMemo[fn]; ok {
+		return m
+	}
+	out := map[int]int{}
+	rets := returnsOf(fn)
+	if len(rets) > 0 {
+		n := len(rets[0].Results)
+		for k := 0; k < n; k++ {
+			pi, ok := -1, true
+			for _, r := range rets {
+				if k >= len(r.Results) {
+					ok = false
+					break
+				}
+				v := r.Results[k]
+				if isNilConst(v) {
+					continue
+				}
+				prm, isP := v.(*ssa.Parameter)
+				if !isP {
+					ok = false
+					break
+				}
+				idx := -1
+				for i, q := range fn.Params {
+					if q == prm {
+						idx = i
+					}
+				}
+				if idx < 0 || (pi >= 0 && pi != idx) {
+					ok = false
+					break
+				}
+				pi = idx
+			}
+			if ok && pi >= 0 {
+				out[k] = pi
+			}
+		}
+	}
+	passThroughMemo[fn] = out
+	return out
 }
